@@ -150,8 +150,15 @@ func collectThenSort(block []ast.Stmt, i int) bool {
 	target := exprString(as.Lhs[0])
 	for _, later := range block[i+1:] {
 		if es, ok := later.(*ast.ExprStmt); ok {
-			if c, ok := es.X.(*ast.CallExpr); ok && strings.HasPrefix(exprString(c.Fun), "sort.") && len(c.Args) > 0 && exprString(c.Args[0]) == target {
-				return true
+			if c, ok := es.X.(*ast.CallExpr); ok && (strings.HasPrefix(exprString(c.Fun), "sort.") || strings.HasPrefix(exprString(c.Fun), "slices.Sort")) && len(c.Args) > 0 {
+				arg := c.Args[0]
+				// sort.Sort(byName(xs)) / sort.Stable(byName(xs)): the slice converted to a sort.Interface type
+				if conv, isConv := arg.(*ast.CallExpr); isConv && len(conv.Args) == 1 {
+					arg = conv.Args[0]
+				}
+				if exprString(arg) == target {
+					return true
+				}
 			}
 		}
 		// any other use of the slice before it is sorted keeps the site sensitive
